@@ -219,6 +219,9 @@ public:
         if (mat.rows() != mat.cols())
             throw std::invalid_argument("UpperHessenbergEigen: matrix must be square");
 
+        // Results of an earlier call are no longer valid
+        m_computed = false;
+
         m_n = mat.rows();
         // Scale matrix prior to the Schur decomposition
         const Scalar scale = mat.cwiseAbs().maxCoeff();
